@@ -1521,11 +1521,38 @@ fn main() {
                 }
                 return;
             }
+            if let Some(d) = a.get("deep-child").and_then(|s| s.parse::<usize>().ok()) {
+                panics::install_hooks();
+                let mut evs = Vec::new();
+                let script = panics::deep_script(d);
+                panics::rerun_script(1, script.clone(), &mut evs);
+                for res in evs {
+                    let e = json!({"ev": "script", "t": 1, "script": script, "obs": res["obs"], "levels": res["levels"], "sent": res["sent"], "status": res["status"], "deep": d});
+                    println!("{}", serde_json::to_string(&e).unwrap());
+                }
+                return;
+            }
             let mut evs = Vec::new();
             // `--raceonly`: --n counts fresh processes racing the first installation of the hook
             let raceonly = a.contains_key("raceonly");
             if !raceonly {
                 panics::gen_panic(seed, n, len, &mut evs);
+                // "at any nesting depth": deeply nested frames, each depth in a process of its own (a process that dies
+                // is the observation)
+                let exe = std::env::current_exe().unwrap();
+                for d in [64usize, 255, 256, 257, 300, 1000] {
+                    let o = std::process::Command::new(&exe).args(["gen-panic", "--deep-child", &d.to_string()]).output().unwrap();
+                    let mut got = false;
+                    for line in String::from_utf8_lossy(&o.stdout).lines() {
+                        if let Ok(e) = serde_json::from_str::<Value>(line) {
+                            evs.push(e);
+                            got = true;
+                        }
+                    }
+                    if !got || !o.status.success() {
+                        evs.push(json!({"ev": "script", "t": 1, "script": panics::deep_script(d), "obs": [], "levels": [], "sent": 0, "status": "process-died", "deep": d}));
+                    }
+                }
             }
             let nrace: usize = if raceonly { n } else { a.get("race").and_then(|s| s.parse().ok()).unwrap_or(0) };
             let exe = std::env::current_exe().unwrap();
